@@ -1,4 +1,4 @@
-"""Kernel K43 (property C09): CodeBuilder.get_discriminator -- which class-level discriminator a class
+"""Kernel K109a (property C09): CodeBuilder.get_discriminator -- which class-level discriminator a class
 has (look_in_parents=False: is its from_dict a dispatcher) or finds along its MRO (look_in_parents=True:
 the field that forbid_extra_keys accepts) -- translated whole from
 /repo/mashumaro/core/meta/code/builder.py on every run.
@@ -34,11 +34,11 @@ import sys
 sys.path.insert(0, os.path.dirname(os.path.dirname(os.path.abspath(__file__))))
 from py2gallina import HEADER, FnTranslator, Kernel, Unsupported, coq_string, find_function, translate_kernel
 
-_spec = importlib.util.spec_from_file_location("vk_k4_alias_for_k43", os.path.join(os.path.dirname(os.path.abspath(__file__)), "k4_alias.py"))
+_spec = importlib.util.spec_from_file_location("vk_k4_alias_for_k109a", os.path.join(os.path.dirname(os.path.abspath(__file__)), "k4_alias.py"))
 _k4 = importlib.util.module_from_spec(_spec)
 _spec.loader.exec_module(_k4)
 
-NAME = "K43"
+NAME = "K109a"
 REPO = os.environ.get("VERIF_REPO", "/repo")
 SRC_REL = "mashumaro/core/meta/code/builder.py"
 
@@ -129,7 +129,7 @@ class DiscrTranslator(_k4.ConfigTranslator):
             if self._search:
                 raise Unsupported("nested search loops")
             tgt = s.target.id
-            if tgt in self.locals:
+            if tgt in self.locals and not getattr(self, "allow_rebind", False):
                 raise Unsupported(f"loop variable {tgt} shadows a local")
             after = _k4.names_loaded(rest)
             if tgt in after:
